@@ -48,6 +48,34 @@ theorem escape_nonws (s : Str) (h : ∀ c ∈ s, isWs c = false) : ∀ x ∈ esc
     · exact escChar_nonws c x (h c (by simp)) hx
     · exact ih (fun y hy => h y (by simp [hy])) x hx
 
+theorem escape_append (a b : Str) : escape (a ++ b) = escape a ++ escape b := by
+  simp [escape, List.flatMap_append]
+
+theorem escChar_ne_nil (c : Char) : escChar c ≠ [] := by
+  unfold escChar
+  repeat' split
+  all_goals simp
+
+/-- the escaped text of a character that is not white space does not end in white space: its last
+    character is the character itself, or the second character of `\\` / `\"` -/
+theorem noTrail_escChar (c : Char) (hc : isWs c = false) : NoTrail (escChar c) :=
+  NoTrail.of_all_nonws _ (fun x hx => escChar_nonws c x hc hx)
+
+/-- the escaped text of `s` does not end in white space when the last character of `s` is not white
+    space (white space in the middle is harmless) -/
+theorem noTrail_escape (s : Str) (h : ∀ c, s.getLast? = some c → isWs c = false) :
+    NoTrail (escape s) := by
+  cases hl : s.getLast? with
+  | none =>
+    have : s = [] := by simpa using hl
+    subst this; exact NoTrail.nil
+  | some c =>
+    obtain ⟨ys, rfl⟩ := List.getLast?_eq_some_iff.mp hl
+    rw [escape_append]
+    have e : escape [c] = escChar c := by simp [escape]
+    rw [e]
+    exact NoTrail.append _ _ (noTrail_escChar c (h c hl)) (escChar_ne_nil c)
+
 theorem noTrail_renderArg (q : Bool) (a : Str) : NoTrail (renderArg q a) := by
   unfold renderArg
   split
@@ -57,8 +85,8 @@ theorem noTrail_renderArg (q : Bool) (a : Str) : NoTrail (renderArg q a) := by
   · rename_i hcond
     have hcu : canUnquote a = true := by
       cases hq : canUnquote a <;> simp [hq] at hcond ⊢
-    obtain ⟨_, hall, _, _⟩ := (canUnquote_iff a).mp hcu
-    exact NoTrail.of_all_nonws _ (escape_nonws a (fun c hc => (hall c hc).1))
+    obtain ⟨_, _, _, hlast, _, _⟩ := (canUnquote_iff a).mp hcu
+    exact noTrail_escape a hlast
 
 theorem renderArg_ne_nil (q : Bool) (a : Str) : renderArg q a ≠ [] := by
   obtain ⟨c, r, h, _⟩ := renderArg_head q a
